@@ -601,3 +601,170 @@ _m("C18", "Proved: for every well-formed serde_json value (integer ranges, finit
    "Coq proof (nested induction on both value types; BTreeMap insertion of a sorted run is append; simulation between insertion "
    "sort by key and BTreeMap insertion) + correspondence over all three number representations, random bit patterns and the C17 "
    "spelling classes, every call under catch_unwind")
+
+
+# ----------------------------------------------------------------------------- json! macro
+def c19_nontrivial(case, impl):
+    # a document with a non-empty container
+    t = case.split(" ")
+    return any(x in ("[", "{") and not t[i + 1].startswith(("]", "}")) for i, x in enumerate(t[:-1]))
+
+
+def _c19_parse(t, i):
+    """token list -> (tree, next index); tree = ('leaf', tok) | ('arr', [tree], close) | ('obj', [(keytok, tree)], close)"""
+    h = t[i]
+    if h == "[":
+        items, i = [], i + 1
+        while not t[i].startswith("]"):
+            x, i = _c19_parse(t, i)
+            items.append(x)
+        return ("arr", items, t[i]), i + 1
+    if h == "{":
+        items, i = [], i + 1
+        while not t[i].startswith("}"):
+            k = t[i]
+            x, i = _c19_parse(t, i + 1)
+            items.append((k, x))
+        return ("obj", items, t[i]), i + 1
+    return ("leaf", h), i + 1
+
+
+def _c19_show(n):
+    if n[0] == "leaf":
+        return n[1]
+    if n[0] == "arr":
+        return " ".join(["["] + [_c19_show(x) for x in n[1]] + [n[2]])
+    return " ".join(["{"] + [k + " " + _c19_show(x) for k, x in n[1]] + [n[2]])
+
+
+def _c19_variants(n):
+    """structurally smaller documents: a child in place of its parent, one item dropped, a
+    sub-document replaced by null, trailing comma dropped, key written as a plain literal"""
+    out = []
+    if n[0] == "leaf":
+        t = n[1]
+        if t != "n":
+            out.append(("leaf", "n"))
+        if t[0] == "i" and t not in ("i0", "i1", "i-1"):
+            out.append(("leaf", "i-1" if t[1] == "-" else "i1"))
+        if t[0] == "d" and t[2:] != "1.5":
+            out.append(("leaf", t[:2] + "1.5"))
+        return out
+    kids = n[1] if n[0] == "arr" else [x for _, x in n[1]]
+    out.extend(kids)
+    for j in range(len(n[1])):
+        out.append((n[0], n[1][:j] + n[1][j + 1:], n[2]))
+    if n[2].endswith("+"):
+        out.append((n[0], n[1], n[2][0]))
+    for j in range(len(n[1])):
+        sub = n[1][j] if n[0] == "arr" else n[1][j][1]
+        for v in _c19_variants(sub):
+            item = v if n[0] == "arr" else (n[1][j][0], v)
+            out.append((n[0], n[1][:j] + [item] + n[1][j + 1:], n[2]))
+        if n[0] == "obj" and n[1][j][0][0] != "k":
+            out.append((n[0], n[1][:j] + [("k" + n[1][j][0][1:], sub)] + n[1][j + 1:], n[2]))
+    return out
+
+
+def c19_shrink_candidates(case):
+    t = case.split(" ")
+    try:
+        tree, end = _c19_parse(t, 1)
+    except IndexError:
+        return []
+    if end != len(t):
+        return []
+    return [t[0] + " " + _c19_show(v) for v in _c19_variants(tree)][:160]
+
+
+def _c19_unhex(t):
+    return "" if t == "-" else "".join(chr(int(h, 16)) for h in t.split(","))
+
+
+def c19_known(case, impl, model, spec):
+    """C19-lexical-not-shortest: implementation and model lines differ only in the spelling of
+    numbers built from float literals (hence possibly in EQ), the two spellings denote the same
+    double, and the model's (the reference: shortest, closest digits) is not longer."""
+    a, b = impl.split(" "), model.split(" ")
+    if len(a) != len(b) or impl.startswith(("COMPILE-ERROR", "RUN-ERROR")):
+        return None
+    seen = False
+    for x, y in zip(a, b):
+        if x == y:
+            continue
+        if {x, y} == {"EQ=0", "EQ=1"}:
+            continue
+        for pre in ("M=", "P="):
+            if x.startswith(pre) and y.startswith(pre):
+                x, y = x[2:], y[2:]
+        if not (x.startswith("#") and y.startswith("#")):
+            return None
+        try:
+            sx, sy = _c19_unhex(x[1:]), _c19_unhex(y[1:])
+            if float(sx) != float(sy) or len(sy) > len(sx):
+                return None
+        except ValueError:
+            return None
+        seen = True
+    return "C19-lexical-not-shortest" if seen else None
+
+
+PROPS["C19"] = {
+    "id": "C19", "family": "c19", "allow_axioms": [],
+    "known": c19_known,
+    "xcheck": "c19",
+    "nshards": {"quick": 1, "thorough": 1},
+    "nontrivial": c19_nontrivial,
+    "shrink_candidates": c19_shrink_candidates,
+    "shrink_budget": 1200,
+    "rule": "the quantifier is over PROGRAMS, so the implementation side is a compiled batch: 300 (quick) / 3,000 (thorough) "
+            "seeded documents of the domain are written as json!( .. ) invocations (one function each, 20 / 40 per generated "
+            "program; string literals spelt with varying escapes and raw strings; variable keys as `const K_..: &str`) "
+            "together with their JSON texts, compiled by rustc against the working tree (rlib built once, offline, under "
+            "build/c19-target; programs under build/c19-crate) and run. Systematic part: each of 12 element kinds (null, "
+            "true, false, +int, -int, +float, -float, string, empty/non-empty array, empty/non-empty object) alone, first "
+            "and last in an array and in an object under each of the four key forms (literal, parenthesised literal, "
+            "variable, parenthesised variable), duplicate keys, with and without trailing comma; random part: nested "
+            "documents of depth <= 4 / 5 and width <= 4 / 6 with repeated keys, i32 boundary integers, float literals drawn "
+            "from eight classes of doubles and kept when the crate's spelling of the double is itself a float literal, "
+            "strings with quotes, backslashes, controls, U+2028, non-BMP characters. Observable per document: the value the "
+            "macro built, the value Value::parse_str returns on the corresponding text, whether they are ==, and the text; "
+            "the model column is expand(tokens d) (with the executable float-spelling reference), the parser model on text "
+            "d and their equality; the spec column is value_of d. All three must agree. A program that does not compile is "
+            "bisected (bounded number of extra compilations) and the documents responsible get the observable "
+            "COMPILE-ERROR <rustc message>, which is a disagreement, hence a VIOLATION. Non-trivial: a document with a "
+            "non-empty container. distinct = distinct case lines.",
+    "trusted": ["rustc's macro_rules! matcher is a MODELLED contract: rules are tried in source order and the first whose pattern "
+                "matches is transcribed; fragment classes on the JSON-literal token domain: `literal` = one literal token or `-` "
+                "literal (a `-` not followed by a literal is a hard error), `expr` = literal | -literal | variable | interpolated "
+                "expression | parenthesised expr, `tt` = one token tree; interpolated expr/literal fragments are opaque to token "
+                "patterns. Validated only by compiling and running the generated programs",
+                "type inference gives an unsuffixed integer literal the type i32 and a float literal f64 in Value::try_from(..); "
+                "std's From/TryFrom blanket impls; Object::from_vec keeps the vector's order",
+                "the spelling of a double (json-number -> lexical-core write_float, trim_floats, exponent 'e') is a dependency: a "
+                "universally quantified function fmt_f64 in the theorems, the executable reference Model/MacroFloat.lexical_f64 "
+                "(shortest round-trip digits, positional for decimal exponents -5..9, scientific otherwise) in the run",
+                "the generated programs set #![recursion_limit = \"4096\"] (the muncher recurses once per token; fuel in the "
+                "model is existential)"],
+    "assumptions": ["domain: integers within i32; float literals common to Rust and JSON (no leading zero, a fraction or an "
+                    "exponent) that the crate re-spells as themselves (fmt_f64 s = Some s) -- e.g. 1.5, 0.1, 1e21, 1e-7 are in, "
+                    "100.0 (spelt 100) and 1.50 are out, and so is 2.675e21 (known finding: the dependency spells that double "
+                    "2.6750000000000003e21); the integer literal -0 (the i32 0, spelt 0) is out; strings/keys of "
+                    "scalar values; keys written as a string literal, a parenthesised literal, a &str variable or a "
+                    "parenthesised variable; a trailing comma only after at least one item"],
+}
+
+_m("C19", "Proved for EVERY document of the domain (arrays and objects nested to any depth, each with or without trailing comma, "
+          "string / i32 integer / re-spelt float / boolean / null literals, negative numbers, literal, parenthesised and variable "
+          "keys, duplicate keys): the rule model of json! -- the 41 rules of src/macros.rs in source order as a first-match "
+          "rewriting system over token trees, with the leaf conversions -- expands the document's tokens to exactly the value the "
+          "document denotes (items and entries in written order, duplicates kept), the trailing comma never matters, the "
+          "corresponding JSON text is the minimal serialisation of that value and the parser model returns exactly that value on "
+          "it; hence macro value = parsed value. What is proved is about the RULE MODEL: rustc's macro_rules matcher (first "
+          "matching rule wins, fragment classes) is a modelled contract, validated by compiling and running generated programs "
+          "(sampled, since the quantifier is over programs).",
+   "The float spelling (lexical) is a universally quantified dependency in the theorems with an executable reference in the run. "
+   "No axioms.",
+   "Coq proof (accumulator invariants of the two token munchers by induction on the item list inside a nested induction on "
+   "documents; text side by composition with C04/C08) + correspondence on compiled batches of generated json! programs "
+   "(macro value, parsed value, model expansion, model parse, denoted value all compared)")
